@@ -12,6 +12,8 @@
 (*   custom    read_sinex_custom(i, j) -> lines                            *)
 (*   list      list_sinex_blocks -> printed names                          *)
 (*   epochs / disconts   read_solution_epochs / read_disconts -> tuples    *)
+(*   numeric   read_sinex_estimate / _matrix / _sites (C18) on the start   *)
+(*             file and on the file rewritten from all its blocks: digests *)
 (*   write     writeSINEX(what was read, S, header or not) -> the lines of *)
 (*             the file it wrote, which is the open file from then on      *)
 (* Every read is compared with the MEANING of the reader (Block,           *)
@@ -76,6 +78,9 @@ Step ==
                                      ELSE IF CommentInsideRecords(A, nm) THEN "records.comment_inside_block"
                                      ELSE IF Len(ev.out) # Len(Records(A, nm)) THEN "count" ELSE "records")} :
                     JudgeDev(ev.k, f, CommentInsideRecords(A, nm))
+       [] ev.k = "numeric" ->          \* the numeric readers of C18 on the start file and on the file rewritten from all its blocks
+            /\ Pure(<<"numeric">>)
+            /\ \E f \in {Verdict(ev, IF ev.before = ev.after THEN "" ELSE "changed_by_rewriting")} : Judge("numeric", f)
        [] ev.k = "write" ->
             /\ Write(SetOf(ev.S), ev.wh)
             /\ \E f \in {Verdict(ev, Diff(ev.lines, Written(regs, SetOf(ev.S), ev.wh)))} : Judge("write", f)
